@@ -1,6 +1,8 @@
 package harness
 
 import (
+	"strconv"
+
 	at "github.com/DanielSvub/anytype"
 	"pgregory.net/rapid"
 )
@@ -79,12 +81,27 @@ func CheckC16(c *C16Case, st *Stats) error {
 	if canon != out {
 		return errf("FormatString(%d) is not the canonical layout of its own tokens:\n got:  %q\n want: %q", c.Indent, clip(out, 400), clip(canon, 400))
 	}
-	// also: same token tree as String()
+	// a re-layout of String(): the same tokens, byte for byte (object members matched by key)
 	js, _, err := CrossCheckScan(stringOf(orig))
 	if err == nil {
 		if err := CompareTokenTree(js, root, "$"); err != nil {
 			return errf("String() differs from the tree (see C02): %v", err)
 		}
+		if err := sameRawTokens(j, js, "$"); err != nil {
+			return errf("FormatString(%d) is not a re-layout of String(): %v\n String():       %s\n FormatString(): %q", c.Indent, err, clip(stringOf(orig), 300), clip(out, 300))
+		}
+	}
+	// and the library itself reads it back as the same container, kinds included
+	back, perr := parseRoot(root.K, out)
+	if perr != nil || back == nil {
+		return errf("the library's own parser rejects FormatString(%d) output: %v: %q", c.Indent, perr, clip(out, 300))
+	}
+	bs, serr := Snap(back)
+	if serr != nil {
+		return serr
+	}
+	if !EqV(bs, root) {
+		return errf("FormatString(%d) does not denote the same data as String(): parsed back it is %s, the container holds %s", c.Indent, bs.Show(), root.Show())
 	}
 	hasEmpty, needsEscape := false, false
 	root.Walk(func(n V, key *string, depth int) {
@@ -114,4 +131,50 @@ func init() {
 	Register("C16",
 		"rapid-generated value trees (as C02) x indent drawn from {-1000,-3,-1,0..10,11,14,2^40} weighted to the boundaries. Inside 0..10 the output must be non-empty, accepted by the strict scanner, denote the generated tree, and equal byte-for-byte the canonical layout re-created from its own raw tokens; outside it must panic; container unchanged. Non-trivial = indent outside the range, or nesting >= 2 with an empty container or a string/key that needs escaping. Distinct = distinct FNV-64a hash of the case JSON.",
 		GenC16, CheckC16)
+}
+
+// sameRawTokens: two token trees consist of the same raw tokens (arrays position by position,
+// object members matched by decoded key).
+func sameRawTokens(a, b JV, path string) error {
+	if a.Kind != b.Kind {
+		return errf("%s: token kinds differ (%s vs %s)", path, a.describe(), b.describe())
+	}
+	switch a.Kind {
+	case '[':
+		if len(a.Arr) != len(b.Arr) {
+			return errf("%s: array lengths differ", path)
+		}
+		for i := range a.Arr {
+			if err := sameRawTokens(a.Arr[i], b.Arr[i], path+"["+strconv.Itoa(i)+"]"); err != nil {
+				return err
+			}
+		}
+	case '{':
+		if len(a.Obj) != len(b.Obj) {
+			return errf("%s: member counts differ", path)
+		}
+		for _, p := range a.Obj {
+			found := false
+			for _, q := range b.Obj {
+				if q.Key == p.Key {
+					found = true
+					if q.RawKey != p.RawKey {
+						return errf("%s: key %+q is spelled %s in one text and %s in the other", path, p.Key, clip(p.RawKey, 60), clip(q.RawKey, 60))
+					}
+					if err := sameRawTokens(p.Val, q.Val, path+"."+p.Key); err != nil {
+						return err
+					}
+					break
+				}
+			}
+			if !found {
+				return errf("%s: key %+q missing in String()", path, p.Key)
+			}
+		}
+	default:
+		if a.Raw != b.Raw {
+			return errf("%s: token %s in FormatString, %s in String()", path, clip(a.Raw, 60), clip(b.Raw, 60))
+		}
+	}
+	return nil
 }
